@@ -169,7 +169,7 @@ FEATURES = {'named', 'namedl', 'ovr', 'ovrl', 'opt', 'star', 'plus', 'join', 'al
 
 
 def make_case(rnd):
-    gcfg = gen.GenCfg(cut=rnd.random() < 0.3)
+    gcfg = gen.GenCfg(cut=rnd.random() < 0.5)
     rules = gen.gen_rules(rnd, gcfg)
     directives, keywords, ruleinfo = [], [], {}
     # keyword-like rule names
